@@ -56,6 +56,8 @@ def run(ctx):
         [['wx', 'wy'], ['r', 'r']],                 # boundaries of the reader inside the other's finish
         [['u1'], ['rx', 'r']],                      # (after an initial commit by the same thread) undo vs cached reader
         [['rw', 'u1'], ['r', 'mr']],
+        [['wx', 'wy', 'u2'], ['r', 'r']],           # one undo transaction undoing two transactions of different objects
+        [['wx', 'u1', 'u1'], ['r', 'r', 'r']],      # undo of an undo
         [['cx'], ['wx', 'r']],                      # readCurrent dependency vs a commit
         [['wa', 'wx'], ['r', 'co', 'r']],           # pooled connection reused across the other's commit
     ]
@@ -64,7 +66,7 @@ def run(ctx):
         for kind in ('file', 'mapping'):
             if kind == 'mapping' and any(op in ('u1', 'u2') for p in progs for op in p):
                 continue
-            yio = kind == 'file' and pi in (0, 5)
+            yio = kind == 'file' and progs[0][0] in ('va', 'wa')
             names = ['t%d' % (i + 1) for i in range(len(progs))]
             # (how many yield points a thread passes depends on what it finds cached: calibrate in both orders)
             y = {}
